@@ -340,6 +340,16 @@ pub fn run(ctx: &mut Ctx) {
         vec![M::B(vec![]), M::B(vec![4, 3, 0, 0]), M::B(vec![])],
         vec![],
     ];
+    // long runs of non-binary messages (text, ping) in front of a binary one, all of them already received when the adaptor is read
+    for run in [15usize, 16, 17, 31, 32, 40, 100] {
+        for kind in 0..3 {
+            let mut msgs: Vec<M> = (0..run).map(|i| match kind { 0 => M::Text, 1 => if i % 2 == 0 { M::Text } else { M::Ping }, _ => if i % 5 == 0 { M::Ping } else { M::Text } }).collect();
+            msgs.push(M::B(vec![1, 2, 3, 4, 5, 6, 7, 8]));
+            msgs.push(M::Text);
+            msgs.push(M::B(vec![9, 10, 11, 12]));
+            for closed in [true, false] { adaptor_case(ctx, closed, &[64, 64, 64], &msgs); }
+        }
+    }
     for msgs in &base {
         for closed in [true, false] {
             for o in [1usize, 2, 3, 5, 64] {
